@@ -440,7 +440,7 @@ func runC44(x *simkit.Exec) {
 			runs = append(runs, r)
 			s.Go(r.req.tag.id, func() {
 				r.got = do(front, r.req)
-				s.Note("done %s: %s", r.req.tag.id, r.got.brief())
+				s.Note("done %s: %s", r.req.tag.id, r.got.class())
 			})
 		}
 		s.Loop()
